@@ -312,7 +312,7 @@ def variants(i, thorough):
     """(inplace, rebuild_scopes, share, foreign_keys) combinations for the i-th base case."""
     allv = [(False, False), (True, False), (False, True), (True, True)]
     if thorough:
-        return [(ip, rs, (i + j) % 5 == 0, (i + j) % 7 == 3) for j, (ip, rs) in enumerate(allv)]
+        return [(ip, rs, (i + j) % 5 == 0, (i + j) % 7 == 3) for j, (ip, rs) in enumerate(allv) if (i + j) % 2 == 0]
     ip, rs = allv[i % 4]
     return [(ip, rs, i % 5 == 0, i % 7 == 3)]
 
@@ -332,7 +332,7 @@ def run(ctx):
     for family, n in (('map', 2), ('mask', 2)) if quick else (('map', 3), ('mask', 2)):
         cfg = _write_cfg(ctx, f'MC_TreeRewrite_{family}.cfg',
                          'SPECIFICATION Spec\nCHECK_DEADLOCK FALSE\n' + MC_INVS +
-                         _consts(n, family, multi=not quick and family == 'mask', rich=not quick))
+                         _consts(n, family, rich=not quick))
         ctx.mc('MC_TreeRewrite', cfg, timeout=3000, coverage=False)
     # 2. cases: the TLC-enumerated universe (spec -> code) ...
     bases = []
@@ -344,11 +344,11 @@ def run(ctx):
         gen_map = ctx.rng.sample(gen_map, min(len(gen_map), 600))
         gen_mask = ctx.rng.sample(gen_mask, min(len(gen_mask), 400))
     else:
-        gen_map = ctx.rng.sample(gen_map, min(len(gen_map), 40000))
-        gen_mask = ctx.rng.sample(gen_mask, min(len(gen_mask), 30000))
+        gen_map = ctx.rng.sample(gen_map, min(len(gen_map), 8000))
+        gen_mask = ctx.rng.sample(gen_mask, min(len(gen_mask), 6000))
     bases += [('map', b, 'tlc') for b in gen_map] + [('mask', b, 'tlc') for b in gen_mask]
     # ... plus seeded random larger cases over the same vocabulary (all kinds, windows of 3, 3 keys)
-    nrand = 300 if quick else 25000
+    nrand = 300 if quick else 6000
     for i in range(nrand):
         fam = 'map' if i % 5 < 3 else 'mask'
         bases.append((fam, random_base(ctx.rng, fam, 5 if i % 2 else 8), 'rand'))
